@@ -62,6 +62,9 @@ def run(M, rec, tier, seed, k, n):
     try:
         for it in range(110 if tier == "quick" else 700):
             shp, desc, built0 = W.make_net(M, g, next(sh), rng)
+            force_long = it % 8 == 3
+            if force_long:  # a link with two-digit segment indices + initial clamps (symbols re-extracted)
+                desc = g.network(rng.choice(("chain", "ramp", "random")), force=("long",))[1]
             pars = g.pars()
             kinds = set(o["kind"] for o in desc["origins"]) | set("dest-" + d["kind"] for d in desc["dests"])
             for kd in kinds:
@@ -76,6 +79,10 @@ def run(M, rec, tier, seed, k, n):
                 rec.count("skipped_singular")
                 continue
             opts = CC.random_opts(rng, 0.2) if rng.random() < 0.5 else {}
+            if force_long:
+                opts = dict(opts, **rng.choice(({"positive_init_density": True}, {"positive_init_speed": True},
+                                                 {"positive_init_density": True, "positive_init_speed": True})))
+                rec.count("long_link_cases_with_initial_clamps")
             with_p = rng.random() < 0.5
             cand = CC.candidate_params(desc, pars)
             keys = rng.sample(cand, rng.randint(1, min(5, len(cand)))) if with_p else []
